@@ -13,7 +13,7 @@
 #include "varintDict.h"
 #include "varintFloat.h"
 #include "varintPFOR.h"
-#define VP_ALLOC_SIZES X(0) X(1) X(2) X(3) X(4) X(6) X(8) X(16) X(24) X(32) X(40) X(48) X(64) X(128) X(sizeof(varintBitmap))
+#define VP_ALLOC_SIZES X(0) X(1) X(2) X(3) X(4) X(6) X(8) X(16) X(24) X(32) X(40) X(48) X(64) X(128) X(136) X(144) X(sizeof(varintBitmap))
 #include "vp_alloc.inc"
 #ifndef N
 #define N 2
@@ -103,6 +103,40 @@ void harness(void) {
     for (unsigned i = 0; i < N; i++) {
         int32_t ix = varintDictFind(d, v[i]);
         VP_ASSERT("P:oom.object_usable_afterwards.find", ix >= 0 && (uint32_t)ix < d->size && varintDictLookup(d, (uint32_t)ix) == v[i]);
+    }
+    varintDictFree(d);
+    VP_ASSERT("P:oom.free_releases_everything", vp_live == live0);
+#elif API == 8 /* long-lived dictionary, REBUILT with more distinct values than its capacity (16) under failure */
+    vp_fail_at = 0;
+    varintDict *d = varintDictCreate();
+    VP_ASSUME(d != 0);
+    VP_ASSERT("P:oom.prebuild", varintDictBuild(d, v, N) == 0); /* populated dictionary: the N symbolic values */
+    uint64_t big[18];
+    for (unsigned i = 0; i < 18; i++)
+        big[i] = 1000 + 3 * i; /* 18 distinct literal values > capacity 16 */
+    /* (all literal: the symbolic quantities of this query are the failing allocation index and the dictionary's
+     *  previous contents; a symbolic member makes the 18-element sort and the lookups exceed 16 GB) */
+    const unsigned live1 = vp_live;
+    vp_alloc_calls = 0;
+    vp_alloc_failed = 0;
+    vp_fail_at = failat;
+    int rc = varintDictBuild(d, big, 18);
+    vp_fail_at = 0;
+    VP_ASSERT("P:oom.calls_bounded", vp_alloc_calls <= KMAX);
+    VP_ASSERT("P:oom.no_leak", vp_live == live1);
+    if (rc != 0)
+        VP_ASSERT("P:oom.failure_only_if_alloc_failed", vp_alloc_failed);
+    /* consistent: the table pointer is valid for the recorded capacity, size within capacity */
+    VP_ASSERT("P:oom.object_consistent", d->values != 0 && d->size <= d->capacity);
+#ifndef VP_NATIVE
+    VP_ASSERT("P:oom.capacity_backed_by_memory", __CPROVER_OBJECT_SIZE(d->values) >= d->capacity * sizeof(uint64_t));
+#endif
+    /* usable afterwards: lookups do not crash, and a rebuild without failures holds every value */
+    (void)varintDictFind(d, 1000);
+    VP_ASSERT("P:oom.object_usable_afterwards", varintDictBuild(d, big, 18) == 0 && d->size == 18);
+    for (unsigned i = 0; i < 18; i++) {
+        int32_t ix = varintDictFind(d, big[i]);
+        VP_ASSERT("P:oom.object_usable_afterwards.find", ix >= 0 && (uint32_t)ix < d->size && varintDictLookup(d, (uint32_t)ix) == big[i]);
     }
     varintDictFree(d);
     VP_ASSERT("P:oom.free_releases_everything", vp_live == live0);
